@@ -574,6 +574,17 @@ def identities_check(ctx, c, outs):
                     j = int(np.argmax(np.abs(l1 - cart) - tol))
                     return (f"length of a vector read as {fmt} ({how}) = {l1[j]} but its Cartesian length is {cart[j]} "
                             f"({fmt} = {np.asarray(getattr(m1, fmt)).reshape(-1, np.asarray(getattr(m1, fmt)).shape[-1])[j].tolist()})")
+    # … and of the vector at ITS position when the vectors are arranged in two dimensions
+    for m0, fmt in ((md, "uvw"), (mr, "hkl"), (md, "UVTW"), (mr, "hkil")):
+        cs = np.asarray(getattr(m0, fmt), float)
+        nn = (len(cs) // 2) * 2
+        if nn >= 4:
+            m2 = Miller(**{fmt: cs[:nn].reshape(2, nn // 2, cs.shape[-1]), "phase": ph})
+            l2 = np.asarray(m2.length, float)
+            want = np.linalg.norm(m0.data.reshape(-1, 3)[:nn], axis=-1).reshape(2, nn // 2)
+            if l2.shape != want.shape or np.any(np.abs(l2 - want) > 256 * EPS * k * k * np.maximum(want, 1e-300) + 32 * ROUND_UNIT * np.maximum(want, 1.0)):
+                return (f"lengths of {fmt} vectors arranged as (2, {nn // 2}) are {l2.tolist()} but their Cartesian lengths are "
+                        f"{want.tolist()}")
     # cross products: perpendicular to both, reported in the dual space with coordinates V·(u × v) resp. (g × h)/V
     vol = a * b * cc * vfac
     for (A, B_, fmt, dual, fac) in ((uvw[:-1], uvw[1:], "uvw", "hkl", vol), (hkl[:-1], hkl[1:], "hkl", "uvw", 1 / vol)):
